@@ -33,6 +33,12 @@ func runC05(c *engine.Ctx) {
 	r3 := c.Rule("R3", "each retire call in an executor-error handler is under context-cancel (with the cancelled listeners) or network-error; cancelled listeners only there", 2)
 	r4 := c.Rule("R4", "subscriber: terminate iff terminal code (Sent and Error); CloseWithNetworkError on every Error; completed listeners on Sent+terminal", 2)
 	r5 := c.Rule("R5", "a response is stored only where no live entry exists for its ID", 1)
+	// the subscriber (R4) retires a request when the message carrying its final status is reported sent or failed:
+	// that report must exist for every message taken off a queue (the per-message obligation of C15.R3 / C16.R1)
+	r6 := c.Rule("R6", "every message taken off a peer's queue is reported sent or failed exactly once (the event R4's retirement waits for)", 2)
+	if m := loadMQ(c, r6); m.ok {
+		c15Reports(c, r6, m)
+	}
 
 	m := loadMgr(c, r1, "responsemanager")
 	if m == nil {
